@@ -60,6 +60,19 @@ def run_case(c):
     # re-run from the returned arrays, and from a dirty container
     t1, again = fdtdx.run_fdtd(arrays=base, objects=oc, config=cfg, key=KEY, show_progress=False)
     out["rerun"] = {"t": int(t1), **diff(again, base)}
+    # the same under every gradient strategy: first run from fresh arrays, second run from the arrays the first one returned
+    out["grad_reruns"] = []
+    lor = any(b.get("lorentz") for b in c["spec"].get("blocks", []))
+    for g in c.get("grads", []):
+        if lor and g["method"] == "reversible":
+            continue      # the reversible method refuses dispersive media by design
+        try:
+            oc2, arrays2, cfg2, _ = build(dict(c["spec"], grad=g))
+            ta, a1 = fdtdx.run_fdtd(arrays=arrays2, objects=oc2, config=cfg2, key=KEY, show_progress=False)
+            tb, a2 = fdtdx.run_fdtd(arrays=a1, objects=oc2, config=cfg2, key=KEY, show_progress=False)
+            out["grad_reruns"].append({"g": g, "t1": int(ta), "t2": int(tb), "first": diff(a1, base), "second": diff(a2, base)})
+        except Exception as e:
+            out["grad_reruns"].append({"g": g, "error": type(e).__name__ + ": " + str(e)[:200]})
     r = base.reset()
     zero = max([0.0] + [float(np.abs(np.asarray(x)).max()) for x in jax.tree_util.tree_leaves(r.fields) if np.size(x)] +
                [float(np.abs(np.asarray(v)).max()) for st in r.detector_states.values() for v in st.values() if np.size(v)])
